@@ -166,10 +166,10 @@ Proof.
       rewrite Z.quot_div_nonneg by lia. lia.
     - rewrite Z.abs_eq by lia. rewrite Z.quot_div_nonneg by lia. lia. }
   unfold dur_decode. destruct (Z.ltb_spec us 0) as [Hneg|Hpos].
-  - cbn [app]. change (c_minus =? c_minus)%N with true. cbn iota.
+  - cbn [app]. change (c_minus =? c_minus)%N with true. cbn iota. unfold dur_body.
     change (negb (c_P =? c_P)%N) with false. cbn iota.
     rewrite (Hdec (-1)%Z). f_equal. apply Hq. destruct (Z.ltb_spec us 0); [reflexivity | lia].
-  - cbn [app]. change (c_P =? c_minus)%N with false. cbn iota.
+  - cbn [app]. change (c_P =? c_minus)%N with false. cbn iota. unfold dur_body.
     change (negb (c_P =? c_P)%N) with false. cbn iota.
     rewrite (Hdec 1%Z). f_equal. apply Hq. destruct (Z.ltb_spec us 0); [lia | reflexivity].
 Qed.
